@@ -84,6 +84,10 @@ type Session struct {
 	PanePid       int
 	LastWait      string // why the last WaitQuiescent poll was not satisfied
 	ListenAddrHex string // local address of the listening socket as in /proc/net/tcp (0100007F = 127.0.0.1)
+	LooseSearch   bool // quiescence does not require the published result to have been handed to the terminal
+	paneTTY       string
+	serverPid     int
+	syncN         int
 }
 
 var sessionCounter int64
@@ -433,6 +437,61 @@ func (s *Session) Capture() ([]string, error) {
 	return lines, nil
 }
 
+// SyncScreen makes sure tmux has interpreted everything fzf wrote so far: a title-setting
+// sequence (which paints nothing) is appended to the pane's output stream, and the call returns
+// once tmux reports that title. The pty is a FIFO, so all earlier output has been applied.
+func (s *Session) SyncScreen(timeout time.Duration) bool {
+	if s.paneTTY == "" {
+		out, err := s.tmux("display-message", "-p", "-t", "main", "#{pane_tty}")
+		if err != nil {
+			return false
+		}
+		s.paneTTY = strings.TrimSpace(out)
+	}
+	s.syncN++
+	mark := fmt.Sprintf("sync-%d-%d", os.Getpid(), s.syncN)
+	f, err := os.OpenFile(s.paneTTY, os.O_WRONLY|syscall.O_NOCTTY, 0)
+	if err != nil {
+		return false
+	}
+	_, err = f.WriteString("\x1b]2;" + mark + "\x07")
+	f.Close()
+	if err != nil {
+		return false
+	}
+	deadline := time.Now().Add(timeout)
+	for {
+		out, err := s.tmux("display-message", "-p", "-t", "main", "#{pane_title}")
+		if err == nil && strings.TrimSpace(out) == mark {
+			return true
+		}
+		if time.Now().After(deadline) {
+			return false
+		}
+		time.Sleep(2 * time.Millisecond)
+	}
+}
+
+// StallTerminal stops (or resumes) the session's private tmux server: while it is stopped nobody
+// reads the pty, so fzf's writes to the terminal block once the kernel buffer is full.
+func (s *Session) StallTerminal(stop bool) bool {
+	if s.serverPid == 0 {
+		out, err := s.tmux("display-message", "-p", "-t", "main", "#{pid}")
+		if err != nil {
+			return false
+		}
+		s.serverPid, _ = strconv.Atoi(strings.TrimSpace(out))
+	}
+	if s.serverPid <= 1 {
+		return false
+	}
+	sig := syscall.SIGCONT
+	if stop {
+		sig = syscall.SIGSTOP
+	}
+	return syscall.Kill(s.serverPid, sig) == nil
+}
+
 // PaneSize reports tmux's idea of the pane size ("WxH").
 func (s *Session) PaneSize() (string, error) {
 	out, err := s.tmux("display-message", "-p", "-t", "main", "#{pane_width}x#{pane_height}")
@@ -555,7 +614,8 @@ func (s *Session) searchSettled() bool {
 			return true
 		}
 	}
-	return false
+	// (LooseSearch: the answer was published; whether the terminal took it is left to the caller's oracle)
+	return seen && s.LooseSearch
 }
 
 // WaitQuiescent: all batches consumed, input fully read, last search answered and displayed,
@@ -589,6 +649,75 @@ func (s *Session) WaitQuiescent(timeout time.Duration) (*Status, bool) {
 		} else {
 			lastLen = -1
 			s.LastWait = fmt.Sprintf("consumed %d of %d batches, reader settled=%v, search settled=%v", s.consumedBatches(), s.Posted, s.readerSettled(), s.searchSettled())
+		}
+		if _, exited := s.ExitCode(); exited {
+			return nil, false
+		}
+		if time.Now().After(deadline) {
+			return nil, false
+		}
+		time.Sleep(3 * time.Millisecond)
+	}
+}
+
+// WaitStream: for a session whose input stream is still open. Waits until the coordinator has taken
+// a snapshot after the reader had delivered at least `delivered` records, the search issued for that snapshot (or a
+// later one) has been answered and handed to the terminal, all batches are consumed and the trace is
+// quiet; then returns the state.
+func (s *Session) WaitStream(delivered int, timeout time.Duration) (*Status, bool) {
+	deadline := time.Now().Add(timeout)
+	stableSince := time.Time{}
+	lastLen := -1
+	for {
+		s.readTrace()
+		snapAt := -1
+		for i, e := range s.trace {
+			// (the coordinator reads the reader's item counter right before it takes a snapshot)
+			if e.Kind == "core.pushed" && e.A >= delivered && snapAt < 0 {
+				snapAt = i
+			}
+			if e.Kind == "reader.start" && i > snapAt {
+				snapAt = -1 // a reload started: the count restarts
+			}
+		}
+		ok := snapAt >= 0 && s.consumedBatches() >= s.Posted
+		if ok {
+			lastReset, lastResetAt := -1, -1
+			for i, e := range s.trace {
+				if e.Kind == "matcher.reset" {
+					lastReset, lastResetAt = e.A, i
+				}
+			}
+			ok = lastResetAt > snapAt
+			if ok {
+				ptr, seen, shown := "", false, false
+				for _, e := range s.trace {
+					if e.Kind == "matcher.publish" && e.A == lastReset {
+						ptr, seen = e.S, true
+					}
+					if seen && e.Kind == "term.update_list" && e.S == ptr {
+						shown = true
+					}
+				}
+				ok = shown
+			}
+		}
+		if ok {
+			if len(s.trace) != lastLen {
+				lastLen = len(s.trace)
+				stableSince = time.Now()
+			} else if time.Since(stableSince) > 40*time.Millisecond {
+				st, err := s.Get(1000000)
+				if err == nil {
+					s.readTrace()
+					if len(s.trace) == lastLen {
+						return st, true
+					}
+				}
+			}
+		} else {
+			lastLen = -1
+			s.LastWait = fmt.Sprintf("stream: snapshot with %d records seen=%v, consumed %d of %d batches", delivered, snapAt >= 0, s.consumedBatches(), s.Posted)
 		}
 		if _, exited := s.ExitCode(); exited {
 			return nil, false
@@ -730,6 +859,9 @@ func (s *Session) Signal(sig syscall.Signal) bool {
 
 // Close kills everything that belongs to the session and removes its directory.
 func (s *Session) Close() {
+	if s.serverPid > 1 {
+		syscall.Kill(s.serverPid, syscall.SIGCONT)
+	}
 	if s.closed {
 		return
 	}
